@@ -750,6 +750,18 @@ NextPin:
 			rollback()
 			return fmt.Errorf("Node type must be sent with new edges")
 		}
+
+		// a node must never become its own ancestor
+		cycle, err := sdb.isAncestor(tx, nodeID, parentID)
+		if err != nil {
+			rollback()
+			return err
+		}
+		if cycle {
+			rollback()
+			return fmt.Errorf("Error: edge %v -> %v would make node its own ancestor",
+				parentID, nodeID)
+		}
 		// did not find edge, need to add it
 		edge.Up = parentID
 		edge.Down = nodeID
@@ -828,6 +840,46 @@ NextPin:
 	}
 
 	return nil
+}
+
+// isAncestor returns true if ancestorID can be reached from id by walking
+// upstream edges (deleted edges included)
+func (sdb *DbSqlite) isAncestor(tx *sql.Tx, ancestorID, id string) (bool, error) {
+	visited := make(map[string]bool)
+	todo := []string{id}
+
+	for len(todo) > 0 {
+		cur := todo[len(todo)-1]
+		todo = todo[:len(todo)-1]
+		if cur == ancestorID {
+			return true, nil
+		}
+		if visited[cur] {
+			continue
+		}
+		visited[cur] = true
+
+		rows, err := tx.Query("SELECT up FROM edges WHERE down=?", cur)
+		if err != nil {
+			return false, err
+		}
+
+		for rows.Next() {
+			var up string
+			err = rows.Scan(&up)
+			if err != nil {
+				rows.Close()
+				return false, err
+			}
+			todo = append(todo, up)
+		}
+
+		if err := rows.Close(); err != nil {
+			return false, err
+		}
+	}
+
+	return false, nil
 }
 
 func (sdb *DbSqlite) updateHash(tx *sql.Tx, id string, hashUpdate uint32) error {
